@@ -1,5 +1,5 @@
 PROP = {
-    "regen_files": ["GenGuards.v", "GenCollect.v"],
+    "regen_files": ["GenGuards.v", "GenCollect.v", "GenSigs.v"],
     "num": 7,
     "runs": [{"tag": "c07", "bin": "c07"},
              # the same scripts with ZERO-SIZED drop-tracked items (a Vec of them has capacity usize::MAX and
